@@ -953,4 +953,398 @@ theorem loadedNodes_mem (flows : List FlowD) (nc : NodeC)
   obtain ⟨n, hn, rfl⟩ := hnc
   exact ⟨f, hf, n, hn, rfl⟩
 
+/-! ### campaigns -/
+
+theorem strM_ne_strF : strM ≠ strF := by decide
+
+theorem loadEvent_ok (e : EventD) (h : validEvent e = true) : loadEvent e = .ok e := by
+  simp only [validEvent, Bool.and_eq_true, Bool.or_eq_true, bne_iff_ne, ne_eq, beq_iff_eq,
+    Bool.not_eq_true', truthy] at h
+  obtain ⟨⟨hu, hk⟩, hcase⟩ := h
+  unfold loadEvent
+  rw [if_neg hu, if_neg (by simp [hk])]
+  rcases hcase with ⟨⟨⟨hm, hmsg⟩, hflow⟩, hbl⟩ | ⟨⟨hf, hflow⟩, hbl⟩
+  · cases hb : e.baseLanguage with
+    | none => simp [hb] at hbl
+    | some b =>
+      simp only [hb, Bool.not_eq_true'] at hbl
+      have hbn : ¬ b = jNull := by
+        intro h; subst h; simp [falsy] at hbl
+      have : ¬ (e.eventType = strF) := by rw [hm]; exact strM_ne_strF
+      simp [hm, hmsg, hbn, this, strM_ne_strF]
+  · have : ¬ (e.eventType = strM) := by rw [hf]; exact fun h => strM_ne_strF h.symm
+    have hfl : ¬ e.flow = none := by
+      intro h; simp [h] at hflow
+    have hfm : ¬ strF = strM := fun h => strM_ne_strF h.symm
+    simp [this, hf, hfl, hfm]
+
+theorem renderEvent_id (e : EventD) (h : validEvent e = true) : renderEvent e = e := by
+  simp only [validEvent, Bool.and_eq_true, Bool.or_eq_true, bne_iff_ne, ne_eq, beq_iff_eq,
+    Bool.not_eq_true'] at h
+  obtain ⟨_, hcase⟩ := h
+  cases e with
+  | mk uuid offset unit eventType deliveryHour message relLabel relKey startMode flow baseLanguage =>
+  simp only at hcase
+  rcases hcase with ⟨⟨⟨hm, _⟩, hflow⟩, hbl⟩ | ⟨⟨hf, _⟩, hbl⟩
+  · subst hm
+    cases baseLanguage with
+    | none => simp at hbl
+    | some b =>
+      simp only at hbl
+      have hfn : flow = none := by simpa using hflow
+      simp [renderEvent, strM_ne_strF, hfn, Option.filter, hbl]
+  · subst hf
+    have hbn : baseLanguage = none := by simpa using hbl
+    have : ¬ strF = strM := fun h => strM_ne_strF h.symm
+    simp [renderEvent, this, hbn]
+
+theorem loadCampaign_ok (c : CampaignD) (h : validCampaign c = true) : loadCampaign c = .ok c := by
+  simp only [validCampaign, Bool.and_eq_true, bne_iff_ne, ne_eq] at h
+  have he : mapE loadEvent c.events = .ok c.events :=
+    mapE_ok_id c.events (fun e he => loadEvent_ok e ((List.all_eq_true.mp h.2) e he))
+  unfold loadCampaign
+  rw [if_neg h.1, he]
+
+/-! ### triggers -/
+
+def trigImg (t : TriggerD) : TriggerC :=
+  { type := t.type, keywords := normKeywords t, channel := t.channel,
+    matchType := if falsy (t.matchType.getD jNull) then (if t.type = strK then jMatchF else jNull) else t.matchType.getD jNull,
+    flow := t.flow, groups := t.groups, excludeGroups := t.excludeGroups.getD [] }
+
+theorem isNull_falsy (k : Blob) (h : isNull k = true) : falsy k = true := by
+  have : k = jNull := by simpa [isNull] using h
+  subst this; decide
+
+theorem loadTrigger_ok (t : TriggerD) (h : validTrigger t = true) : loadTrigger t = .ok (trigImg t) := by
+  simp only [validTrigger, Bool.and_eq_true] at h
+  obtain ⟨hch, hkw⟩ := h
+  have hchan := keepsOr_if jNull t.channel hch
+  cases t with
+  | mk type keyword keywords channel matchType flow groups excludeGroups =>
+  simp only at hkw hchan
+  cases keywords with
+  | some ks =>
+    have hK : ¬ (type = strK ∧ firstFalsy ks = true) := by
+      intro ⟨h1, h2⟩
+      cases keyword <;> simp [h1, h2] at hkw
+    simp only [loadTrigger, if_neg hK, hchan, trigImg, normKeywords]
+  | none =>
+    cases keyword with
+    | none => simp at hkw
+    | some k =>
+      have hK : ¬ (type = strK ∧ firstFalsy (if isNull k = true then [] else [k]) = true) := by
+        intro ⟨h1, h2⟩
+        have : falsy k = true := by
+          by_cases hn : isNull k = true
+          · exact isNull_falsy k hn
+          · simpa [hn, firstFalsy] using h2
+        simp [h1, this] at hkw
+      simp only [loadTrigger, if_neg hK, hchan, trigImg, normKeywords]
+
+theorem normKeywords_render (tc : TriggerC) : normKeywords (renderTrigger tc) = tc.keywords := rfl
+
+theorem matchType_eq (ty : Str) (m : Option Blob) :
+    normMatchType ty (if falsy (if falsy (m.getD jNull) = true then (if ty = strK then jMatchF else jNull) else m.getD jNull) = true
+        then none else some (if falsy (m.getD jNull) = true then (if ty = strK then jMatchF else jNull) else m.getD jNull)) =
+    normMatchType ty m := by
+  have hF : falsy jMatchF = false := by decide
+  have hN : falsy jNull = true := by decide
+  unfold normMatchType
+  cases m with
+  | none =>
+    by_cases hk : ty = strK <;> simp [hk, hF, hN, dropFalsy, Option.filter, truthy]
+  | some b =>
+    by_cases hb : falsy b = true
+    · by_cases hk : ty = strK <;> simp [hk, hb, hF, hN, dropFalsy, Option.filter, truthy]
+    · have hb' : falsy b = false := by simpa using hb
+      simp [hb', dropFalsy, Option.filter, truthy]
+
+theorem excl_eq (ex : Option (List GroupD)) :
+    normExcl (some ((ex.getD []).map renderGroup)) = normExcl ex := by
+  have hg : ∀ gs : List GroupD, (gs.map renderGroup).map normGroup = gs.map normGroup := by
+    intro gs
+    rw [List.map_map]
+    exact List.map_congr_left (fun g _ => normGroup_renderGroup g)
+  cases ex with
+  | none => rfl
+  | some gs =>
+    cases gs with
+    | nil => rfl
+    | cons g gs =>
+      have := hg (g :: gs)
+      simp only [List.map_cons] at this
+      simp only [normExcl, Option.getD_some, List.map_cons]
+      rw [this]
+
+theorem normTrigger_render (t : TriggerD) :
+    normTrigger (renderTrigger (trigImg t)) = normTrigger t := by
+  have hg : (t.groups.map renderGroup).map normGroup = t.groups.map normGroup := by
+    rw [List.map_map]
+    exact List.map_congr_left (fun g _ => normGroup_renderGroup g)
+  have hm := matchType_eq t.type t.matchType
+  have he := excl_eq t.excludeGroups
+  cases t with
+  | mk type keyword keywords channel matchType flow groups excludeGroups =>
+  simp only at hg hm he
+  simp only [normTrigger, normKeywords_render]
+  simp only [renderTrigger, trigImg, hg, hm, he]
+
+/-! ### the whole document -/
+
+def docImg (d : DocD) : Container :=
+  { campaigns := d.campaigns, fields := d.fields, flows := d.flows.map flowImg, groups := d.groups,
+    site := d.site, triggers := d.triggers.map trigImg, version := d.version }
+
+/-- what `render` writes for the loaded image of a valid document -/
+def outDoc (d : DocD) : DocD :=
+  { campaigns := d.campaigns.map renderCampaign, fields := d.fields,
+    flows := (d.flows.map flowImg).map renderFlow,
+    groups := d.groups.map (fun g => ({ name := g.name, uuid := g.uuid } : GroupD)),
+    site := d.site, triggers := (d.triggers.map trigImg).map renderTrigger, version := d.version }
+
+theorem mem_allNodes {d : DocD} {f : FlowD} {n : NodeD} (hf : f ∈ d.flows) (hn : n ∈ f.nodes) : n ∈ allNodes d :=
+  List.mem_flatten.mpr ⟨f.nodes, List.mem_map_of_mem hf, hn⟩
+
+theorem nodeOk_of (d : DocD) (hv : Valid d) (ho : OrderedCats d) (hx : ExitsByCats d) (hu : UntypedFields d) :
+    ∀ f ∈ d.flows, ∀ n ∈ f.nodes, NodeOk n := by
+  intro f hf n hn
+  have hvf := hv.flows f hf
+  simp only [validFlow, Bool.and_eq_true] at hvf
+  have hm := mem_allNodes hf hn
+  exact ⟨(List.all_eq_true.mp hvf.2) n hn, hx n hm, ho n hm, hu n hm⟩
+
+theorem load_ok (d : DocD) (hv : Valid d) (hn : ∀ f ∈ d.flows, ∀ n ∈ f.nodes, NodeOk n) :
+    load d = .ok (docImg d) := by
+  have h1 : mapE loadFlow d.flows = .ok (d.flows.map flowImg) :=
+    mapE_ok_of_forall _ (fun f hf => loadFlow_ok f (hv.flows f hf) (hn f hf))
+  have h2 : mapE loadCampaign d.campaigns = .ok d.campaigns :=
+    mapE_ok_id _ (fun c hc => loadCampaign_ok c (hv.campaigns c hc))
+  have h3 : mapE loadTrigger d.triggers = .ok (d.triggers.map trigImg) :=
+    mapE_ok_of_forall _ (fun t ht => loadTrigger_ok t (hv.triggers t ht))
+  have h4 := keepsOr_if jEmptyArr d.fields hv.fields
+  have h5 : (if falsy d.site = true then jDefaultSite else d.site) = d.site := by
+    have := hv.site
+    simp only [truthy, Bool.not_eq_true'] at this
+    simp [this]
+  simp only [load, h1, h2, h3, h4, h5, docImg]
+
+theorem mem_groupRefs_node {d : DocD} {f : FlowD} {n : NodeD} {r : Str × Str}
+    (hf : f ∈ d.flows) (hn : n ∈ f.nodes) (hr : r ∈ nodeRefsD n) : r ∈ docGroupRefs d := by
+  unfold docGroupRefs
+  exact List.mem_append_left _ (List.mem_append_left _
+    (List.mem_flatten.mpr ⟨_, List.mem_map_of_mem (mem_allNodes hf hn), hr⟩))
+
+theorem mem_groupRefs_campaign {d : DocD} {c : CampaignD} (hc : c ∈ d.campaigns) : gref c.group ∈ docGroupRefs d := by
+  unfold docGroupRefs
+  exact List.mem_append_left _ (List.mem_append_right _ (List.mem_map_of_mem (f := fun c => gref c.group) hc))
+
+theorem mem_groupRefs_trigger {d : DocD} {t : TriggerD} {r : Str × Str} (ht : t ∈ d.triggers)
+    (hr : r ∈ triggerRefsD t) : r ∈ docGroupRefs d := by
+  unfold docGroupRefs
+  exact List.mem_append_right _ (List.mem_flatten.mpr ⟨_, List.mem_map_of_mem ht, hr⟩)
+
+theorem mem_flowRefs_node {d : DocD} {f : FlowD} {n : NodeD} {r : Str × Str}
+    (hf : f ∈ d.flows) (hn : n ∈ f.nodes) (hr : r ∈ nodeFlowRefsD n) : r ∈ docFlowRefsPre d := by
+  unfold docFlowRefsPre
+  exact List.mem_append_left _ (List.mem_append_right _
+    (List.mem_flatten.mpr ⟨_, List.mem_map_of_mem (mem_allNodes hf hn), hr⟩))
+
+theorem mem_flowRefs_event {d : DocD} {c : CampaignD} {e : EventD} {r : Str × Str}
+    (hc : c ∈ d.campaigns) (he : e ∈ c.events) (hr : r ∈ eventFlowRefs e) : r ∈ docFlowRefsPre d := by
+  unfold docFlowRefsPre
+  refine List.mem_append_right _ (List.mem_flatten.mpr ⟨eventFlowRefs e, ?_, hr⟩)
+  exact List.mem_flatten.mpr ⟨c.events.map eventFlowRefs,
+    List.mem_map_of_mem (f := fun c => c.events.map eventFlowRefs) hc, List.mem_map_of_mem he⟩
+
+theorem allGroupRefs_ok (d : DocD) (hn : ∀ f ∈ d.flows, ∀ n ∈ f.nodes, NodeOk n) :
+    allGroupRefs (docImg d) = .ok (d.groups.map gref ++ docGroupRefs d) := by
+  let g : NodeC → List (Str × Str) := fun nc => okOr [] (nodeGroupRefs nc)
+  have h1 : mapE nodeGroupRefs (((d.flows.map flowImg).map (·.nodes)).flatten) =
+      .ok ((((d.flows.map flowImg).map (·.nodes)).flatten).map g) := by
+    apply mapE_ok_of_forall
+    intro nc hnc
+    obtain ⟨f, hf, n, hn', rfl⟩ := loadedNodes_mem d.flows nc hnc
+    simp [g, okOr, nodeGroupRefs_ok _ n (hn f hf n hn')]
+  have h2 : (((d.flows.map flowImg).map (·.nodes)).flatten).map g = (allNodes d).map nodeRefsD := by
+    apply loadedNodes_map
+    intro f hf n hn'
+    simp [g, okOr, nodeGroupRefs_ok _ n (hn f hf n hn')]
+  have h3 : ((d.triggers.map trigImg).map triggerGroupRefs).flatten = (d.triggers.map triggerRefsD).flatten := by
+    rw [List.map_map]
+    rfl
+  simp only [allGroupRefs, docImg, h1, h2, h3, docGroupRefs, List.append_assoc]
+
+theorem preTriggerFlowRefs_ok (d : DocD) (hn : ∀ f ∈ d.flows, ∀ n ∈ f.nodes, NodeOk n) :
+    preTriggerFlowRefs (docImg d) = docFlowRefsPre d := by
+  have h1 : (((d.flows.map flowImg).map (·.nodes)).flatten).map nodeFlowRefs = (allNodes d).map nodeFlowRefsD := by
+    apply loadedNodes_map
+    intro f hf n hn'
+    exact nodeFlowRefs_ok _ n (hn f hf n hn')
+  have h2 : (d.flows.map flowImg).map (fun f => (f.name, f.uuid)) = d.flows.map (fun f => (f.name, f.uuid)) := by
+    rw [List.map_map]; rfl
+  simp only [preTriggerFlowRefs, docImg, h1, h2, docFlowRefsPre]
+
+theorem render_ok (d : DocD) (hv : Valid d) (hn : ∀ f ∈ d.flows, ∀ n ∈ f.nodes, NodeOk n) :
+    render (docImg d) = .ok (outDoc d) := by
+  -- group dictionary
+  have hkeys : ((d.groups.map gref).map (·.1)).Nodup := by
+    have : (d.groups.map gref).map (·.1) = d.groups.map (·.name) := by rw [List.map_map]; rfl
+    rw [this]; exact hv.groupNames
+  have hG : ∀ r ∈ docGroupRefs d, dget r.1 (d.groups.map gref) = some r.2 ∧ r.2 ≠ [] := by
+    intro r hr
+    have hm := hv.groupsListed r hr
+    refine ⟨dget_of_mem _ hkeys r.1 r.2 hm, ?_⟩
+    obtain ⟨g, hg, rfl⟩ := List.mem_map.mp hm
+    exact hv.groupUuids g hg
+  have hgd : recordAll [] (d.groups.map gref ++ docGroupRefs d) = .ok (d.groups.map gref) := by
+    have h0 := recordAll_fresh (d.groups.map gref) [] (fun _ _ => rfl) hkeys
+    rw [recordAll_append _ _ _ _ h0]
+    simpa using recordAll_listed (docGroupRefs d) (d.groups.map gref) hG
+  -- flow dictionary
+  obtain ⟨hfne, hffun⟩ := hv.flowRefs
+  have hpre_sub : ∀ r ∈ docFlowRefsPre d, r ∈ docFlowRefs d := fun r hr => List.mem_append_left _ hr
+  have htr_sub : ∀ t ∈ d.triggers, fref t.flow ∈ docFlowRefs d := fun t ht =>
+    List.mem_append_right _ (List.mem_map_of_mem (f := fun t => fref t.flow) ht)
+  obtain ⟨fd0, hfd0, _, hres0, hmem0, hrev0⟩ := recordAll_functional (docFlowRefsPre d) []
+    (fun r hr => hfne r (hpre_sub r hr))
+    (fun r hr s hs => hffun r (hpre_sub r hr) s (hpre_sub s hs))
+    (fun r _ v h => by simp [dget] at h)
+  have htrig : ∀ tc ∈ d.triggers.map trigImg, ∃ t ∈ d.triggers, tc.flow = t.flow := by
+    intro tc htc
+    obtain ⟨t, ht, rfl⟩ := List.mem_map.mp htc
+    exact ⟨t, ht, rfl⟩
+  obtain ⟨fd, hfd, hmono, hrest, hmemt⟩ := recordTriggers_functional (d.triggers.map trigImg) fd0
+    (by
+      intro tc htc
+      obtain ⟨t, ht, he⟩ := htrig tc htc
+      rw [he]; exact hfne _ (htr_sub t ht))
+    (by
+      intro a ha b hb hab
+      obtain ⟨t, ht, he⟩ := htrig a ha
+      obtain ⟨s, hs, he'⟩ := htrig b hb
+      rw [he, he'] at hab ⊢
+      exact hffun _ (htr_sub t ht) _ (htr_sub s hs) hab)
+    (by
+      intro tc htc v hv'
+      obtain ⟨t, ht, he⟩ := htrig tc htc
+      rw [he] at hv' ⊢
+      rcases hrev0 _ _ hv' with h | h
+      · simp [dget] at h
+      · exact hffun _ (hpre_sub _ h) _ (htr_sub t ht) rfl)
+    (by
+      intro tc htc
+      obtain ⟨t, ht, he⟩ := htrig tc htc
+      rw [he]
+      obtain ⟨r, hr, hr1⟩ := List.mem_map.mp (hv.triggerFlows t ht)
+      exact ⟨r.2, by rw [← hr1]; exact hres0 r hr⟩)
+  have hresF : ∀ r ∈ docFlowRefsPre d, dget r.1 fd = some r.2 := fun r hr => hmono _ _ (hres0 r hr)
+  have hresT : ∀ t ∈ d.triggers, dget t.flow.name fd = some t.flow.uuid := fun t ht =>
+    hrest (trigImg t) (List.mem_map_of_mem ht)
+  -- nothing is missing
+  have hgiven : (allGiven (d.groups.map gref) && allGiven fd) = true := by
+    simp only [allGiven, Bool.and_eq_true, List.all_eq_true, bne_iff_ne, ne_eq]
+    constructor
+    · intro kv hkv
+      obtain ⟨g, hg, rfl⟩ := List.mem_map.mp hkv
+      exact hv.groupUuids g hg
+    · intro kv hkv
+      rcases hmemt kv hkv with h | h
+      · rcases hmem0 kv h with h | h
+        · simp at h
+        · exact hfne kv (hpre_sub kv h)
+      · obtain ⟨tc, htc, rfl⟩ := List.mem_map.mp h
+        obtain ⟨t, ht, he⟩ := htrig tc htc
+        rw [he]; exact hfne _ (htr_sub t ht)
+  -- assigning changes nothing
+  have hflows : (d.flows.map flowImg).map (fun f => { f with nodes := f.nodes.map (assignNode (d.groups.map gref) fd) })
+      = d.flows.map flowImg := by
+    apply map_id_of_forall
+    intro fc hfc
+    obtain ⟨f, hf, rfl⟩ := List.mem_map.mp hfc
+    have : (flowImg f).nodes.map (assignNode (d.groups.map gref) fd) = (flowImg f).nodes := by
+      apply map_id_of_forall
+      intro nc hnc
+      simp only [flowImg, List.map_map, List.mem_map, Function.comp] at hnc
+      obtain ⟨n, hn', rfl⟩ := hnc
+      apply assignNode_id _ _ _ n (hn f hf n hn')
+      · intro r hr
+        exact (hG r (mem_groupRefs_node hf hn' hr)).1
+      · intro r hr
+        exact hresF r (mem_flowRefs_node hf hn' hr)
+    rw [this]
+  have hcamps : d.campaigns.map (fun k => { k with events := k.events.map (assignEvent fd), group := assignGroup (d.groups.map gref) k.group }) = d.campaigns := by
+    apply map_id_of_forall
+    intro k hk
+    have h1 : k.events.map (assignEvent fd) = k.events := by
+      apply map_id_of_forall
+      intro e he
+      cases hfl : e.flow with
+      | none => cases e; simp_all [assignEvent]
+      | some fr =>
+        have := hresF (fref fr) (mem_flowRefs_event hk he (by simp [eventFlowRefs, hfl]))
+        have h2 := assignFlowRef_id fd fr this
+        cases e; simp_all [assignEvent]
+    have h2 := assignGroup_id (d.groups.map gref) k.group (hG _ (mem_groupRefs_campaign hk)).1
+    rw [h1, h2]
+  have htrigs : (d.triggers.map trigImg).map (fun t => { t with flow := assignFlowRef fd t.flow, groups := t.groups.map (assignGroup (d.groups.map gref)), excludeGroups := t.excludeGroups.map (assignGroup (d.groups.map gref)) }) = d.triggers.map trigImg := by
+    apply map_id_of_forall
+    intro tc htc
+    obtain ⟨t, ht, rfl⟩ := List.mem_map.mp htc
+    have h1 := assignFlowRef_id fd t.flow (hresT t ht)
+    have h2 : t.groups.map (assignGroup (d.groups.map gref)) = t.groups := by
+      apply map_id_of_forall
+      intro g hg
+      exact assignGroup_id _ g (hG _ (mem_groupRefs_trigger ht (List.mem_append_left _ (List.mem_map_of_mem hg)))).1
+    have h3 : (t.excludeGroups.getD []).map (assignGroup (d.groups.map gref)) = t.excludeGroups.getD [] := by
+      apply map_id_of_forall
+      intro g hg
+      exact assignGroup_id _ g (hG _ (mem_groupRefs_trigger ht (List.mem_append_right _ (List.mem_map_of_mem hg)))).1
+    simp only [trigImg, h1, h2, h3]
+  have hrender := allGroupRefs_ok d hn
+  have hpre := preTriggerFlowRefs_ok d hn
+  unfold render
+  rw [hrender]
+  simp only [hgd]
+  rw [hpre]
+  simp only [hfd0]
+  have hfd' : recordTriggers fd0 (docImg d).triggers = .ok fd := hfd
+  simp only [hfd', hgiven]
+  have hflows' : (docImg d).flows.map (fun f => { f with nodes := f.nodes.map (assignNode (d.groups.map gref) fd) })
+      = d.flows.map flowImg := hflows
+  have hcamps' : (docImg d).campaigns.map (fun k => { k with events := k.events.map (assignEvent fd), group := assignGroup (d.groups.map gref) k.group }) = d.campaigns := hcamps
+  have htrigs' : (docImg d).triggers.map (fun t => { t with flow := assignFlowRef fd t.flow, groups := t.groups.map (assignGroup (d.groups.map gref)), excludeGroups := t.excludeGroups.map (assignGroup (d.groups.map gref)) }) = d.triggers.map trigImg := htrigs
+  simp only [hflows', hcamps', htrigs']
+  simp [outDoc, docImg, gref, Function.comp_def]
+
+theorem normCampaign_render (k : CampaignD) (h : validCampaign k = true) :
+    normCampaign (renderCampaign k) = normCampaign k := by
+  simp only [validCampaign, Bool.and_eq_true] at h
+  have he : k.events.map renderEvent = k.events :=
+    map_id_of_forall _ (fun e he => renderEvent_id e ((List.all_eq_true.mp h.2) e he))
+  simp only [normCampaign, renderCampaign, he, normGroup_renderGroup]
+
+theorem normGroup_plain (g : GroupD) (h : plainGroup g = true) :
+    normGroup { name := g.name, uuid := g.uuid } = normGroup g := by
+  simp only [plainGroup, Bool.and_eq_true, Option.isNone_iff_eq_none] at h
+  obtain ⟨⟨⟨h1, h2⟩, h3⟩, h4⟩ := h
+  simp only [normGroup, h1, h2, h3, h4]
+  rfl
+
+theorem normDoc_outDoc (d : DocD) (hv : Valid d) (hn : ∀ f ∈ d.flows, ∀ n ∈ f.nodes, NodeOk n)
+    (hp : PlainGroups d) : normDoc (outDoc d) = normDoc d := by
+  have h1 : (d.campaigns.map renderCampaign).map normCampaign = d.campaigns.map normCampaign := by
+    rw [List.map_map]
+    exact List.map_congr_left (fun k hk => normCampaign_render k (hv.campaigns k hk))
+  have h2 : ((d.flows.map flowImg).map renderFlow).map normFlow = d.flows.map normFlow := by
+    rw [List.map_map, List.map_map]
+    exact List.map_congr_left (fun f hf => normFlow_renderFlow f (hn f hf))
+  have h3 : (d.groups.map (fun g => ({ name := g.name, uuid := g.uuid } : GroupD))).map normGroup = d.groups.map normGroup := by
+    rw [List.map_map]
+    exact List.map_congr_left (fun g hg => normGroup_plain g (hp g hg))
+  have h4 : ((d.triggers.map trigImg).map renderTrigger).map normTrigger = d.triggers.map normTrigger := by
+    rw [List.map_map, List.map_map]
+    exact List.map_congr_left (fun t _ => normTrigger_render t)
+  simp only [normDoc, outDoc, h1, h2, h3, h4]
+
 end Rpft.Document
